@@ -236,7 +236,12 @@ func (d *Decoder) DecodeWithOption(v interface{}, optFuncs ...DecodeOptionFunc) 
 	for _, optFunc := range optFuncs {
 		optFunc(s.Option)
 	}
-	if err := dec.DecodeStream(s, 0, header.ptr); err != nil {
+	err = dec.DecodeStream(s, 0, header.ptr)
+	if rerr := s.TakeReadError(); rerr != nil {
+		// the reader failed: what was decoded from the truncated input is not a result
+		return rerr
+	}
+	if err != nil {
 		return err
 	}
 	s.Reset()
